@@ -8,6 +8,7 @@
 -/
 import Sq.Denote
 import SqLemmas.DenoteSound
+import SqLemmas.DenoteComplete
 namespace SqProps.C07Den
 open Sq Sq.Den
 
@@ -62,5 +63,26 @@ example : observe (evalOp [100] 20 prog 0 w1) = some (some ⟨false, 4, 0⟩, no
 
 /-- … and with the budget 5 the same program raises the ops-limit error at the 5th node -/
 example : observe (evalOp [5] 20 prog 0 w1) = some (none, some 5, some 5) := by decide +kernel
+
+/-- **the machine computes nothing the semantics does not prescribe**: whenever the machine, started on a node alone,
+    finishes — returns a value or raises an error to an empty continuation, for the first time, after any number `n` of
+    steps — some fuel makes `evalOp` yield exactly that outcome and world -/
+theorem semantics_covers_machine (B : List Nat) (op : Op) (vmi : Nat) (w : World) (n : Nat) (o : Out) (w' : World)
+    (h : run n { ctl := .ev op vmi, k := [], w := w, budgets := B } = { ctl := o.ctl, k := [], w := w', budgets := B })
+    (hu : ∀ i, i < n → ¬ Underflow (run i { ctl := .ev op vmi, k := [], w := w, budgets := B }).core) :
+    ∃ f, evalOp B f op vmi w = some (o, w') :=
+  evalOp_complete op vmi w n o w' h hu
+
+/-- **semantics and machine define the same relation** between a node in a world and its outcome and final world -/
+theorem semantics_iff_machine (B : List Nat) (op : Op) (vmi : Nat) (w : World) (o : Out) (w' : World) :
+    (∃ f, evalOp B f op vmi w = some (o, w')) ↔
+    (∃ n, run n { ctl := .ev op vmi, k := [], w := w, budgets := B } = { ctl := o.ctl, k := [], w := w', budgets := B } ∧
+      ∀ i, i < n → ¬ Underflow (run i { ctl := .ev op vmi, k := [], w := w, budgets := B }).core) :=
+  ⟨fun ⟨f, hf⟩ => evalOp_sound f op vmi w o w' hf, fun ⟨n, h, hu⟩ => evalOp_complete op vmi w n o w' h hu⟩
+
+/-- more fuel never changes a verdict -/
+theorem semantics_is_monotone_in_fuel (B : List Nat) (f g : Nat) (hfg : f ≤ g) (op : Op) (vmi : Nat) (w : World)
+    (r : Out × World) (h : evalOp B f op vmi w = some r) : evalOp B g op vmi w = some r :=
+  evalOp_mono hfg h
 
 end SqProps.C07Den
